@@ -59,7 +59,9 @@ MANIFEST_TEXT = (
     "Gaussian and bosonic post-selected heterodyne agree for every size, mode and value (full, since fix a15d68b; the "
     "pre-fix entry point is kept as *_old with its refutation witness and gap formula). "
     "Not proved (checked on the implementation only): Born rule as physics, Fock homodyne pdf, hafnian/torontonian "
-    "samplers, bosonic rejection sampling and re-weighting, threshold conditional state, project_reset on tensors.")
+    "samplers, bosonic rejection sampling and re-weighting, threshold conditional state (sequential mixture oracle, "
+    "many detectors, cat states), dark counts (Poisson rates per listed mode), bosonic multi-shot sampling, TDM "
+    "(shots, spatial modes, time bins) layout, project_reset on tensors, measurements after mode deletion on all backends.")
 
 HBARS = [2.0, 2.0, 1.0, 0.5, 1.7]
 EPS = 0.0002
@@ -1137,6 +1139,27 @@ def check_fock_family(spec):
         nl = fock_axes(sp)[0]
         if not np.allclose(post_rho(out["post"], nl), post_rho(out2["post"], nl), atol=1e-9):
             fails.append(("sample-vs-select:fock:fock", "state after measuring %s on %s differs from the state after post-selecting it" % (outcome, sp["meas"]["modes"])))
+    # post-select on a second possible outcome whose values, in listing order, are not ascending (so that any
+    # re-ordering of the select list against the mode list shows); chosen from the pre-state's own distribution
+    modes = sp["meas"]["modes"]
+    if len(modes) >= 2:
+        nl, axes = fock_axes(sp)
+        t = sp["backend_options"]["cutoff_dim"]
+        P = joint_probs(out["pre"]).reshape([t] * nl)
+        rest = tuple(a for a in range(nl) if a not in axes)
+        marg = P.sum(axis=rest) if rest else P      # axes in ascending order of the measured axes
+        srt = sorted(axes)
+        cands = []
+        for idx in np.ndindex(*marg.shape):
+            if marg[idx] > 1e-4 * marg.sum():
+                listed = [int(idx[srt.index(a)]) for a in axes]
+                if listed != sorted(listed) and listed != outcome:
+                    cands.append((listed, float(marg[idx])))
+        if cands:
+            cands.sort(key=lambda c: (-len(set(c[0])), -c[1], c[0]))
+            pick = cands[min(int(sp.get("u", 0.5) * min(len(cands), 3)), len(cands) - 1)][0]
+            f3, _, _ = check_fock(with_select(sp, pick))
+            fails += f3
     return fails
 
 
